@@ -80,6 +80,11 @@ pub fn families(a: &Args, rng: &mut Rng) -> Vec<Fam> {
     for t in many_classes_family() {
         v.push(Fam { t, fam: "many-classes" });
     }
+    for (i, t) in landmark_range_family().into_iter().enumerate() {
+        if a.thorough() || i % 3 == (a.seed as usize) % 3 {
+            v.push(Fam { t, fam: "landmark-ranges" });
+        }
+    }
     for (i, t) in complement_inside_family(&pool).into_iter().enumerate() {
         if a.thorough() || i % 2 == (a.seed as usize) % 2 || i < 285 {
             v.push(Fam { t, fam: "complement-inside" });
